@@ -37,7 +37,7 @@ def cases_for(tier, seed):
     # (the null-target + inherits family carries the known C06 finding and adds nothing about tables)
     cases += [c for c in suites.c06_cases(tier, seed) if c.expect == "ok" and not c.tag.startswith(("c06_null_target", "c06_fk_inside_component"))][:: (4 if tier == "quick" else 1)]
     # arbitrary unicode contents, duplicated across keys / subkeys / namespaces / interpolations
-    def tree(l):
+    def tree(l, ns=None):
         d = {}
         for i, s in enumerate(NASTY):
             d["n%d" % i] = S(s + " " + l)
@@ -45,10 +45,10 @@ def cases_for(tier, seed):
         d["grp"] = SUB({"a": S(NASTY[0] + " " + l), "b": SUB({"c": S(NASTY[1]), "d": S(Cp("b", NASTY[2]))})})
         d["r"] = RANGE("u8", [([("exact", 0)], S(NASTY[3])), ("fallback", S(NASTY[3], V("count")))])
         d["p"] = PLURAL("cardinal", {"one": S(NASTY[4]), "other": S(NASTY[4], V("count"))})
-        d["fk"] = S(FK("n0"), FK("n1"))
+        d["fk"] = S(FK((ns + ":" if ns else "") + "n0"), FK((ns + ":" if ns else "") + "n1"))
         return d
     cases.append(Case(Project("en", ["en", "fr"], {l: tree(l) for l in ("en", "fr")}), "c11_unicode/plain", roles={"*": "unicode_tables"}))
-    cases.append(Case(Project("en", ["en", "fr"], {ns: {l: tree(l) for l in ("en", "fr")} for ns in ("one", "two")}, namespaces=["one", "two"]),
+    cases.append(Case(Project("en", ["en", "fr"], {ns: {l: tree(l, ns) for l in ("en", "fr")} for ns in ("one", "two")}, namespaces=["one", "two"]),
                       "c11_unicode/namespaces", roles={"*": "unicode_tables_ns"}))
     for c in cases:
         c.tag = "c11:" + c.tag if not c.tag.startswith("c11") else c.tag
